@@ -109,15 +109,25 @@ def gen_case(rng, i, tier):
         call["boundary"] = b
     if f is not None:
         call["fill_value"] = f
+    data = {"kind": "hostile" if rng.random() < 0.12 else "quarter", "seed": rng.getrandbits(31),
+            "dtype": rng.choice(["float64"] * 10 + ["float32", "int64"]),
+            "memory": rng.choice(["C"] * 6 + ["F", "strided", "readonly"])}
+    if data["dtype"] == "int64" and data["kind"] == "quarter":
+        # integer-typed data only with integer-valued fills: numpy pads an integer array with the fill value cast to
+        # its dtype, and what a fractional fill should mean for such an array is not part of the statement
+        def intfill(v):
+            return {k: intfill(x) for k, x in v.items()} if isinstance(v, dict) else (v if v is None or float(v).is_integer() else 5)
+
+        ctor["fill_value"] = intfill(ctor.get("fill_value"))
+        if "fill_value" in call:
+            call["fill_value"] = intfill(call["fill_value"])
     return {
         "layout": layout,
         "ctor": ctor,
         "pos": pos,
         "dims": dims,
         "extra": extra,
-        "data": {"kind": "hostile" if rng.random() < 0.12 else "quarter", "seed": rng.getrandbits(31),
-                 "dtype": "float32" if rng.random() < 0.08 else "float64",
-                 "memory": rng.choice(["C"] * 6 + ["F", "strided", "readonly"])},
+        "data": data,
         "call": call,
         "name": rng.choice(["v", "temp", None]),
     }
@@ -139,6 +149,8 @@ def make_da(desc, ds):
     data = gen.make_data(desc["data"]["kind"], desc["data"]["seed"], shape)
     if desc["data"].get("dtype") == "float32" and desc["data"]["kind"] == "quarter":
         data = data.astype("float32")  # quarter-integers and all their sums/halves are exact in float32 too
+    if desc["data"].get("dtype") == "int64" and desc["data"]["kind"] == "quarter":
+        data = np.round(data).astype("int64")  # integer-typed data (counts, indices)
     layout = desc["data"].get("memory", "C")
     if layout == "F":
         data = np.asfortranarray(data)
